@@ -17,4 +17,20 @@ UNITS = [
     Unit('concatenate.bp', 'c04', 'verif_concatenate', mode='bp', unwind=10, unwind_loops=HN, clause='concatenate: operand selection and source index'),
     Unit('shape_repeat.uf', 'c04', 'verif_shape_repeat', mode='uf', unwind=10, unwind_loops=HN, clause='repeat: shape'),
     Unit('repeat.uf', 'c04', 'verif_repeat', mode='uf', unwind=10, unwind_loops=HN, clause='repeat: source index'),
+    Unit('shape_take.bp', 'c04', 'verif_shape_take', mode='bp', unwind=10, unwind_loops=HN, clause='take: shape'),
+    Unit('take.bp', 'c04', 'verif_take', mode='bp', unwind=10, unwind_loops=HN, clause='take: source index (incl. negative entries of the index list)'),
+    Unit('shape_resize.bp', 'c04', 'verif_shape_resize', mode='bp', unwind=10, unwind_loops=HN, clause='resize: shape / validity'),
+    Unit('resize.uf', 'c04', 'verif_resize', mode='uf', unwind=10, unwind_loops=HN, clause='resize: nearest-neighbour source index'),
+    Unit('shape_expand.uf', 'c04', 'verif_shape_expand', mode='uf', unwind=10, unwind_loops=HN, clause='expand: shape'),
+    Unit('shape_diagonal.bp', 'c04', 'verif_shape_diagonal', mode='bp', unwind=10, unwind_loops=HN, clause='diagonal: shape'),
+    Unit('diagonal.bp', 'c04', 'verif_diagonal', mode='bp', unwind=10, unwind_loops=HN, clause='diagonal: source index'),
+    Unit('shape_tril.bp', 'c04', 'verif_shape_tril', mode='bp', unwind=10, unwind_loops=HN, clause='tril: shape'),
+    Unit('tril.bp', 'c04', 'verif_tril', mode='bp', unwind=10, unwind_loops=HN, clause='tril: predicate j-i<=k and source index'),
+    Unit('shape_triu.bp', 'c04', 'verif_shape_triu', mode='bp', unwind=10, unwind_loops=HN, clause='triu: shape'),
+    Unit('triu.bp', 'c04', 'verif_triu', mode='bp', unwind=10, unwind_loops=HN, clause='triu: predicate j-i>=k and source index'),
+    Unit('eye.bp', 'c04', 'verif_eye', mode='bp', unwind=10, unwind_loops=HN, clause='eye: one iff j-i==k'),
+    Unit('tri.bp', 'c04', 'verif_tri', mode='bp', unwind=10, unwind_loops=HN, clause='tri: one iff j-i<=k'),
+]
+LEMMAS = [
+    Lemma('c04_roll_mod', 'c04_roll_mod.lean', clause='roll: the executable source-coordinate formula of the contract equals the mathematical modulo (idx - shift) mod n for every shift'),
 ]
